@@ -29,7 +29,8 @@ KFD == 1000            \* pseudo descriptor of the kill switch
 (* Kernel side                                                             *)
 (***************************************************************************)
 \* client end of a connection
-ClientInit == [st |-> "idle", wr |-> FALSE, rd |-> FALSE, fd |-> 0, srvClosed |-> FALSE, refused |-> FALSE]
+\* (rcvd: bytes received so far by a client that was refused -- 0 for all others; ghost for Refused503)
+ClientInit == [st |-> "idle", wr |-> FALSE, rd |-> FALSE, fd |-> 0, srvClosed |-> FALSE, refused |-> FALSE, rcvd |-> 0]
 
 NoConn == [st |-> "none", infl |-> 0, http |-> InitConn(<<0>>), intr |-> "IN", peer |-> 0]
 NewConn(c, limit) == [st |-> "AwaitingIncoming", infl |-> 0, http |-> InitConn(limit), intr |-> "IN", peer |-> c]
@@ -82,7 +83,8 @@ CSendFds(S, c, bytes, fds) ==
               !.c2sfd[c] = IF fds = <<>> \/ bytes = <<>> THEN @
                            ELSE Append(@, [s |-> Len(S.c2s[c]), e |-> Len(S.c2s[c]) + Len(bytes), fds |-> fds])]
 CSend(S, c, bytes) == CSendFds(S, c, bytes, <<>>)
-CRecv(S, c, n) == [S EXCEPT !.s2c[c] = Slice(@, n + 1, Len(@))]
+CRecv(S, c, n) == [S EXCEPT !.s2c[c] = Slice(@, n + 1, Len(@)),
+                           !.cl[c].rcvd = IF S.cl[c].refused THEN @ + n ELSE @]
 CShutWr(S, c) == [S EXCEPT !.cl[c].wr = TRUE]
 \* shutdown(RD): what is already queued stays readable; later writes of the peer fail (EPIPE)
 CShutRd(S, c) == [S EXCEPT !.cl[c].rd = TRUE]
@@ -273,6 +275,10 @@ FilesOnceOK(S) ==
                 \cup UNION {SeqSet(t.files) : t \in Toks(S)}
                 \cup UNION {SeqSet(S.c2sfd[p[1]][p[2]].fds) : p \in UNION {{<<d, k>> : k \in 1..Len(S.c2sfd[d])} : d \in Clients}}
     IN Cardinality(tags) = HeldByServer(S) + Cardinality(InFlightFds(S))
+
+\* C09 / C10: an entry that is closed holds no output (a hang-up and a failed write both discard it, and
+\* answers for a closed entry are dropped), so nothing but unanswered requests keeps it from being released
+ClosedNoOutput(S) == \A f \in Open(S) : S.srv[f].st = "Closed" => ~PendingWrite(S.srv[f].http)
 
 \* C08: registered interest mirrors the state; output is never parked under IN interest
 InterestOK(S) ==
